@@ -137,6 +137,8 @@ NAME_SRCS = [
     "ns::T v;", "::G v;", "a::b::c::D v;", "V<int> v;", "V<int, 3> v;", "V<W<int>, ns::T> v;", "V<W<X<int>>> v;", "typename T::type v;", "a::template B<int>::c v;",
     "V<const int*, void (int)> v;", "V<T...> v;", "V<sizeof(int)> v;", "V<(1 > 2)> v;", "unsigned long long v;", "decltype(x + 1) v;", "decltype(a)::type v;",
     "struct S v;", "enum class E v;", "V<int&, int&&, int* const> v;", "V<\"s\", 'c', 1.5f> v;",
+    "decltype(static_cast<const T&>(t)) v;", "decltype(new Foo) v;", "decltype(sizeof x + alignof(unsigned int)) v;", "V<decltype(const_cast<volatile U*>(p)), 1 + sizeof(Ts)> v;", "V<sizeof...(Ts)> v;",
+    "typename decltype(new Foo)::element_type v;", "V<T volatile, int volatile*, ns::R volatile&, U const volatile> v;", "V<unsigned long, long double, signed char> v;",
 ]
 
 
@@ -219,7 +221,7 @@ def run(tier):
         nb += 1
         if bad:
             body = ("from vf.props import c17\n" f"bad = c17.name_judge({src!r})\nprint(bad)\nsys.exit(1 if bad else 0)\n")
-            ck.violation(f"{bad} (from {src!r})", ck.write_replay(body), key=dict(kind="name-format", src=src))
+            ck.violation(f"{bad} (from {src!r})", ck.write_replay(body), key=dict(kind="name-format", src=src, bad=bad))
     ck.sub("PQName / TemplateSpecialization / DecltypeSpecifier / Value formats re-parse to equal names", "replay", "holds" if not [v for v in ck.violations if v["key"]["kind"] == "name-format"] else "flagged", sources=nb)
     r = rt_replay([0, 0, 0, 3, 10, 10], depth)
     ck.sample(dict(position=r[0], tree=r[1], formatted=r[2], verdict=r[3] or "ok"))
